@@ -3,6 +3,7 @@ Attribution for arbitrary programs rests on C04's undecided exactness. DESIGN.md
 import itertools
 from .common import *
 from .C04 import stamping_rule
+from cpv.ceval import Evaluator, Unknown
 
 PL = "MemoryLeakWarningPlugin"
 DET = "MemoryLeakDetector"
@@ -21,77 +22,122 @@ def check(ctx, run):
     run.analysed(pre)
     run.analysed(post)
     # ---------------- R1 ----------------------------------------------------
-    rp = pre.params[1]["name"]
-    for p in enumerate_paths(pre):
-        names = [render(pre, c) for c in path_calls(prog, pre, p)]
-        a = [(l, render(pre, r)) for l, r, n in assignments(pre, p)]
-        ok = names.count("memLeakDetector_->startChecking()") == 1 and ("failureCount_", "%s.getFailureCount()" % rp) in a
-        run.ob("R1", "preTestAction starts the checking period and remembers the failure count", pre.site, ok, witness={"calls": names, "assign": a})
+    per = {e["name"]: e["v"] for en in prog.enums.values() if en["qn"].endswith("MemLeakPeriod") for e in en["enumerators"]}
+    if len(per) < 4:
+        raise AnalysisBroken("MemLeakPeriod enumerators not found")
+    CHECKING, ENABLED, DISABLED = per["mem_leak_period_checking"], per["mem_leak_period_enabled"], per["mem_leak_period_disabled"]
+
+    def hooks(seq, answers):
+        def mk(name):
+            return lambda *a_: (seq.append((name, a_)), answers.get(name, 0))[1]
+        names = [DET + "::startChecking", DET + "::stopChecking", DET + "::totalMemoryLeaks", DET + "::report", DET + "::markCheckingPeriodLeaksAsNonCheckingPeriod",
+                 "TestResult::getFailureCount", "TestResult::addFailure", "TestResult::print", PL + "::areNewDeleteOverloaded"]
+        return {n_: mk(n_.split("::")[-1]) for n_ in names}
+    seq = []
+    ev = Evaluator(prog, pre, env={"failureCount_": 999}, calls=hooks(seq, {"getFailureCount": 17}))
+    try:
+        ev.run_blocks(pre.entry, max_steps=200)
+        okp = [k for k, a_ in seq].count("startChecking") == 1 and ev.env.get("failureCount_") == 17
+    except Unknown as u:
+        run.broke("C07.R1: preTestAction cannot be folded: %s" % u)
+        okp = False
+    run.ob("R1", "preTestAction folded: starts the checking period and remembers the result's failure count", pre.site, okp, witness={"calls": [k for k, a_ in seq], "failureCount_": ev.env.get("failureCount_")})
     tp, rpn = post.params[0]["name"], post.params[1]["name"]
-    for p in enumerate_paths(post):
-        val = p.val()
-        names = [render(post, c) for c in path_calls(prog, post, p)]
-        short_names = [(prog.callee_name(post, c) or "").split("::")[-1] for c in path_calls(prog, post, p)]
-        a = [(l, render(post, r)) for l, r, n in assignments(post, p)]
+    for ig, exp, leaks, before, now, ov in itertools.product((0, 1), (0, 2), (0, 2, 3), (17,), (17, 18), (0, 1)):
+        seq = []
+        ev = Evaluator(prog, post, env={"ignoreAllWarnings_": ig, "expectedLeaks_": exp, "failureCount_": before},
+                       calls=hooks(seq, {"totalMemoryLeaks": leaks, "getFailureCount": now, "areNewDeleteOverloaded": ov, "report": ("str", "report")}))
+        ev.inline = {g.qn for g in prog.functions.values() if g.qn.startswith(PL + "::")} - set(ev.calls)
+        try:
+            ev.run_blocks(post.entry, max_steps=400)
+        except Unknown as u:
+            if str(u).startswith("branch on unknown") and "call " in str(u):
+                # the verdict consults something that is none of its four inputs
+                run.ob("R1", "postTestAction folded [ignore=%d expected=%d leaks=%d failures %d->%d overloaded=%d]" % (ig, exp, leaks, before, now, ov), post.site, False, witness=str(u),
+                       what="the verdict does not depend exactly on (ignore flag, expected != leaks, failure count unchanged, overloads on): %s" % u)
+                continue
+            run.broke("C07.R1: postTestAction cannot be folded: %s" % u)
+            break
+        kinds = [k for k, a_ in seq]
+        decided = (not ig) and exp != leaks and before == now and bool(ov)
         why = []
-        if short_names[:1] != ["stopChecking"]:
+        if kinds[:1] != ["stopChecking"]:
             why.append("stopChecking is not the first action (allocations of the framework itself would be charged to the test)")
-        if "memLeakDetector_->totalMemoryLeaks(mem_leak_period_checking)" not in names:
+        tl = [a_ for k, a_ in seq if k == "totalMemoryLeaks"]
+        if not tl or any(a_[-1] != CHECKING for a_ in tl):
             why.append("leaks are not counted for the checking period")
-        ig = val.get("ignoreAllWarnings_")
-        ne = None
-        for k, v in val.items():
-            if k in ("(expectedLeaks_ == leaks)", "(leaks == expectedLeaks_)"):
-                ne = not v
-        same = None
-        for k, v in val.items():
-            if "failureCount_" in k and "getFailureCount()" in k and "==" in k:
-                same = v
-        ov = [v for k, v in val.items() if k.endswith("areNewDeleteOverloaded()")]
-        added = short_names.count("addFailure")
-        decided = ig is False and ne is True and same is True and ov == [True]
-        undecided_prefix = (ig is True) or (ig is False and ne is False) or (ig is False and ne is True and same is False) or (ig is False and ne is True and same is True and ov == [False])
-        if not (decided or undecided_prefix):
-            why.append("the verdict does not depend exactly on (ignore flag, expected != leaks, failure count unchanged, overloads on): atoms %s" % sorted(val))
-        if added != (1 if decided else 0):
-            why.append("failure added %d times for ignore=%s expected!=leaks=%s unchanged=%s overloaded=%s" % (added, ig, ne, same, ov))
-        if decided and not any("memLeakDetector_->report(mem_leak_period_checking)" in n for n in names):
+        if kinds.count("addFailure") != (1 if decided else 0):
+            why.append("failure added %d times for ignore=%s expected=%s leaks=%s failures before/after=%s/%s overloaded=%s" % (kinds.count("addFailure"), ig, exp, leaks, before, now, ov))
+        if decided and [a_[-1] for k, a_ in seq if k == "report"] != [CHECKING]:
             why.append("the failure text is not the checking-period report")
-        if decided and not any(n.startswith("TestFailure::TestFailure(&%s" % tp) or ("&%s" % tp) in n for n in names if "TestFailure" in n):
-            why.append("the failure is not attached to the test that just ran")
-        if short_names.count("markCheckingPeriodLeaksAsNonCheckingPeriod") != 1:
-            why.append("the test's leaks are demoted %d times on this exit: they would be charged to the next test" % short_names.count("markCheckingPeriodLeaksAsNonCheckingPeriod"))
-        if ("ignoreAllWarnings_", "false") not in a or ("expectedLeaks_", "0") not in a:
+        if kinds.count("markCheckingPeriodLeaksAsNonCheckingPeriod") != 1:
+            why.append("the test's leaks are demoted %d times on this exit: they would be charged to the next test" % kinds.count("markCheckingPeriodLeaksAsNonCheckingPeriod"))
+        if ev.env.get("ignoreAllWarnings_") != 0 or ev.env.get("expectedLeaks_") != 0:
             why.append("ignore flag / expected count not reset on this exit")
-        run.ob("R1", "postTestAction [%s]" % short(p.describe(post), 130), post.site, not why, witness={"calls": short_names}, what="; ".join(why))
-    ini = {k: render(post, v) for k, v in local_inits(post).items()}
-    run.ob("R1", "the number compared is the checking-period total", post.site, ini.get("leaks") == "memLeakDetector_->totalMemoryLeaks(mem_leak_period_checking)", witness=ini)
-    for fn_, fld, val in (("ignoreAllLeaksInTest", "ignoreAllWarnings_", "true"), ("expectLeaksInTest", "expectedLeaks_", None)):
+        run.ob("R1", "postTestAction folded [ignore=%d expected=%d leaks=%d failures %d->%d overloaded=%d]" % (ig, exp, leaks, before, now, ov), post.site, not why, witness={"calls": kinds}, what="; ".join(why))
+    tf = [n for n in post.walk() if n["k"] in ("CXXConstructExpr", "CXXTemporaryObjectExpr") and (n.get("ct") or "").replace("const ", "") == "TestFailure"]
+    okt = bool(tf) and all(post.args(n) and rx(post, post.args(n)[0]) == "&%s" % tp for n in tf if len(post.args(n)) >= 2)
+    run.ob("R1", "the leak failure is attached to the test that just ran", post.site, okt, witness=[rx(post, n) for n in tf])
+    for fn_, fld, val in (("ignoreAllLeaksInTest", "ignoreAllWarnings_", 1), ("expectLeaksInTest", "expectedLeaks_", None)):
         f = prog.fn(PL + "::" + fn_)
-        a = [(l, render(f, r)) for l, r, n in assignments(f)]
-        want = [(fld, val if val else f.params[0]["name"])]
-        run.ob("R1", "%s sets %s" % (fn_, fld), f.site, a == want, witness=a)
+        ev = Evaluator(prog, f, env=dict({"ignoreAllWarnings_": 0, "expectedLeaks_": 0}, **{q["name"]: 5 for q in f.params}))
+        try:
+            ev.run_blocks(f.entry, max_steps=100)
+            got = ev.env.get(fld)
+        except Unknown as u:
+            got = "unknown: %s" % u
+        run.ob("R1", "%s sets %s" % (fn_, fld), f.site, got == (val if val is not None else 5), witness=got)
 
     # ---------------- R2 ----------------------------------------------------
-    for fn_, val, extra in (("startChecking", "mem_leak_period_checking", "outputBuffer_.clear()"), ("stopChecking", "mem_leak_period_enabled", None),
-                            ("enable", "mem_leak_period_enabled", None), ("disable", "mem_leak_period_disabled", None)):
+    for fn_, val, extra in (("startChecking", CHECKING, True), ("stopChecking", ENABLED, False), ("enable", ENABLED, False), ("disable", DISABLED, False)):
         f = prog.fn(DET + "::" + fn_)
         run.analysed(f)
-        a = [(l, render(f, r)) for l, r, n in assignments(f)]
-        cs = [render(f, c) for c in f.calls()]
-        ok = a == [("current_period_", val)] and (extra is None or extra in cs)
-        run.ob("R2", "%s sets the current period to %s%s" % (fn_, val.replace("mem_leak_period_", ""), " and clears the report buffer" if extra else ""), f.site, ok, witness={"assign": a, "calls": cs})
+        cleared = []
+        ok = True
+        for start in (CHECKING, ENABLED, DISABLED):
+            ev = Evaluator(prog, f, env={"current_period_": start}, calls={"MemoryLeakOutputStringBuffer::clear": lambda *a_: (cleared.append(1), 0)[1]})
+            try:
+                ev.run_blocks(f.entry, max_steps=100)
+                ok = ok and ev.env.get("current_period_") == val
+            except Unknown as u:
+                ok = False
+        ok = ok and (not extra or len(cleared) == 3)
+        run.ob("R2", "%s folded from every period: the current period becomes %s%s" % (fn_, [k for k, v in per.items() if v == val][0].replace("mem_leak_period_", ""), " and the report buffer is cleared" if extra else ""), f.site, ok)
     mk = prog.fn(DET + "::markCheckingPeriodLeaksAsNonCheckingPeriod")
     run.analysed(mk)
-    a = [(l, render(mk, r)) for l, r, n in assignments(mk) if "period_" in l]
-    cs = [render(mk, c) for c in mk.calls()]
-    okm = a == [("leak->period_", "mem_leak_period_enabled")] and "memoryTable_.getFirstLeak(mem_leak_period_checking)" in cs and "memoryTable_.getNextLeak(leak, mem_leak_period_checking)" in cs
-    for p in enumerate_paths(mk):
-        wrote = [l for l, r, n in assignments(mk, p) if l == "leak->period_"]
-        chk = [v for k, v in p.val().items() if "leak->period_" in k and "mem_leak_period_checking" in k]
-        if wrote and chk != [True] and True not in chk:
-            okm = False
-    run.ob("R2", "demotion walks the checking-period leaks and rewrites checking -> enabled only", mk.site, okm, witness={"assign": a, "calls": cs})
+    badm = None
+    for periods in itertools.product(sorted(per.values()), repeat=2):
+        for walk_all in (False, True):
+            nodes = [5000 + 100 * i for i in range(len(periods))]
+            env = {"@%d.period_" % a_: p_ for a_, p_ in zip(nodes, periods)}
+            # the table walk: answers the nodes of the asked period (or all of them, which the loop body must still filter)
+            asked = []
+
+            def first(*a_, nodes=nodes, periods=periods, walk_all=walk_all):
+                asked.append(a_[-1])
+                c = [n_ for n_, p_ in zip(nodes, periods) if walk_all or p_ == a_[-1]]
+                return c[0] if c else 0
+
+            def nxt(*a_, nodes=nodes, periods=periods, walk_all=walk_all):
+                asked.append(a_[-1])
+                c = [n_ for n_, p_ in zip(nodes, periods) if walk_all or p_ == a_[-1]]
+                cur = a_[-2]
+                later = c[c.index(cur) + 1:] if cur in c else []
+                return later[0] if later else 0
+            ev = Evaluator(prog, mk, env=env, calls={"MemoryLeakDetectorTable::getFirstLeak": first, "MemoryLeakDetectorTable::getNextLeak": nxt})
+            ev.heap_mode = True
+            try:
+                ev.run_blocks(mk.entry, max_steps=600)
+            except Unknown as u:
+                run.broke("C07.R2: markCheckingPeriodLeaksAsNonCheckingPeriod cannot be folded: %s" % u)
+                break
+            after = tuple(ev.env.get("@%d.period_" % a_) for a_ in nodes)
+            want = tuple(ENABLED if p_ == CHECKING else p_ for p_ in periods)
+            if walk_all and after != want and badm is None:
+                badm = "records with periods %s become %s, expected %s" % (periods, after, want)
+            if not walk_all and (after != want or any(x != CHECKING for x in asked)) and badm is None:
+                badm = "records with periods %s become %s (walk asked for periods %s), expected %s" % (periods, after, asked, want)
+    run.ob("R2", "demotion folded over every pair of records x periods: exactly the checking-period records become enabled, the walk asks for the checking period", mk.site, badm is None, witness=badm or "32 cases", what=badm or "")
     stamping_rule(prog, run, "R2")
     ct = [f for f in prog.methods_of(DET) if f.kind == "ctor"][0]
     a = [(l, render(ct, r)) for l, r, n in assignments(ct)]
@@ -108,33 +154,38 @@ def check(ctx, run):
     fr = prog.fn(PL + "::FinalReport")
     run.analysed(fr)
     okf = True
-    for p in enumerate_paths(fr):
-        names = [render(fr, c) for c in path_calls(prog, fr, p)]
-        eq = None
-        for k, v in p.val().items():
-            if "leaks" in k and fr.params[0]["name"] in k:
-                eq = v
-        r = render(fr, fr.node(p.ret.get("value"))) if p.ret is not None else None
-        if "memLeakDetector_->totalMemoryLeaks(mem_leak_period_enabled)" not in names:
+    wit = []
+    for leaks, tbd in ((0, 0), (3, 3), (3, 0), (0, 2)):
+        seq = []
+        ev = Evaluator(prog, fr, env={fr.params[0]["name"]: tbd}, calls=hooks(seq, {"totalMemoryLeaks": leaks, "report": ("str", "report")}))
+        try:
+            ev.run_blocks(fr.entry, max_steps=200)
+            r = getattr(ev, "ret", None)
+        except Unknown as u:
+            run.broke("C07.R3: FinalReport cannot be folded: %s" % u)
+            break
+        tl = [a_[-1] for k, a_ in seq if k == "totalMemoryLeaks"]
+        rp_ = [a_[-1] for k, a_ in seq if k == "report"]
+        want = ("str", "") if leaks == tbd else ("str", "report")
+        wit.append({"leaks": leaks, "expected": tbd, "returns": r})
+        if tl != [ENABLED] or r != want or (leaks != tbd and rp_ != [ENABLED]):
             okf = False
-        if eq is False and r != "memLeakDetector_->report(mem_leak_period_enabled)":
-            okf = False
-        if eq is True and r != '""':
-            okf = False
-    run.ob("R3", "FinalReport reports the enabled period (every test's demoted leaks) unless the count is the expected one", fr.site, okf)
+    run.ob("R3", "FinalReport folded: reports the enabled period (every test's demoted leaks) unless the count is the expected one", fr.site, okf, witness=wit)
     ra = [f for f in prog.fns("CommandLineTestRunner::RunAllTests") if "const char *const *" in f.d["sig"]][0]
     run.analysed(ra)
     okr = True
+    plug = [d["name"] for n in ra.walk() if n["k"] == "DeclStmt" for d in n.get("decls", []) if d.get("ct") == PL]
     for p in enumerate_paths(ra):
+        rv = render(ra, ra.node(p.ret.get("value"))) if p.ret is not None and p.ret.get("value") is not None else None
         z = None
         for k, v in p.val().items():
-            if k in ("result", "(0 == result)", "(result == 0)"):
-                z = (not v) if k == "result" else v
-        names = [render(ra, c) for c in path_calls(prog, ra, p)]
-        printed = any("FinalReport(0)" in n for n in names)
+            if rv is not None and k in (rv, "(0 == %s)" % rv, "(%s == 0)" % rv):
+                z = (not v) if k == rv else v
+        names = [rx(ra, c) for c in path_calls(prog, ra, p)]
+        printed = any(".FinalReport(0)" in n for n in names)
         if z is None or printed != z:
             okr = False
     run.ob("R3", "the final leak report is printed iff the run result is 0", ra.site, okr)
     cs = [render(ra, c) for c in ra.calls()]
-    ok = any("installPlugin(&memLeakWarn)" in c for c in cs) and any("removePluginByName" in c for c in cs)
+    ok = len(plug) == 1 and any("installPlugin(&%s)" % plug[0] in c for c in cs) and any("removePluginByName" in c for c in cs)
     run.ob("R3", "RunAllTests installs the leak plugin for the run and removes it afterwards", ra.site, ok, witness=[c for c in cs if "lugin" in c])
